@@ -225,7 +225,31 @@ def rule_views(run):
     views.run_rule(run, "F-VIEW")
 
 
-RULES = [rule_cache, rule_own_cache, rule_lattice, rule_value_views, rule_views]
+def rule_array_elements(run):
+    run.begin(
+        "C13.d",
+        "elements of an Array value always have exactly the declared element type (every initialiser is passed through "
+        "the element type's constructor), so views of elements get the canonical class Q[elemtype]",
+        floor=2,
+    )
+    ar = run.idx.mod(AR)
+    f = ar.func("Array.__init__")
+    et = [b["__e"] for _n, b in P.find(f.node, "__e = self._elemtype_")]
+    names = set(et) | {"self._elemtype_"}
+    n = 0
+    for a in walk_local(f.node):
+        if isinstance(a, ast.Assign) and dotted(a.targets[0]) == "self._value" and isinstance(a.value, (ast.ListComp, ast.List)):
+            elts = [a.value.elt] if isinstance(a.value, ast.ListComp) else a.value.elts
+            for e in elts:
+                n += 1
+                ok = isinstance(e, ast.Call) and dotted(e.func) in names
+                run.ob(ok, "Array.__init__", file=ar.rel, line=a.lineno, detail=f"element#{n}", expected="elemtype(<initialiser>) for every element", found=src(e)[:70])
+    if n < 2:
+        raise AnalysisError("Array.__init__: element construction not recognised")
+    run.end()
+
+
+RULES = [rule_cache, rule_own_cache, rule_lattice, rule_value_views, rule_views, rule_array_elements]
 LEVEL = "other"
 EXPLANATION = (
     "Canonicity and the subtype lattice are decided from the three metaclass __getitem__ functions for all parameters "
